@@ -5,3 +5,5 @@ INVARIANT C17_NoPanic
 INVARIANT C17_Selection
 INVARIANT C17_NoHang
 INVARIANT KF_C17
+INVARIANT C17_Settings
+INVARIANT C17_Columns
